@@ -611,6 +611,15 @@ def run(ctx, scratch):
         bc_oracle(ctx, 'break_cycles', 'weights_fractional', a, wc['n'], wc['E'], [wc['root']], True, r['ok'],
                   weights='fractional')
     ctx.extra['oracle_contract_checks'] = contract_checked
+    ctx.extra['set_order_cases_dropped_from_model_diff'] = ctx.margin_dropped
+    variant = coq_eval('c12var', IMPORTS, ['bc_und_visits_other_components'])[0]
+    ctx.extra['model_variant'] = {'bc_und_visits_other_components (Gen/CyclesCode.v, re-extracted from cycles.py)': variant}
+    ctx.notes.append('proved for all inputs (model): is_bipartite sound/complete/total, is_connected, largest component, '
+                     'is_acyclic directed and undirected (forest_iff_count), get_cycles sound / complete (directed) / empty iff '
+                     'acyclic; BOUNDED (all graphs on <= 4 nodes, vm_compute): break_cycles postcondition; beyond that bound '
+                     'break_cycles is judged by the run-time brute-force oracle only')
+    ctx.notes.append('undirected get_cycles: completeness is not demanded by the property (cycles sharing a node set are merged); '
+                     'checked: genuine, duplicate-free, none iff acyclic')
     ctx.rule = ('exhaustive: all undirected graphs with optional self-loops on n<=3 (n=4: all in thorough, sampled in quick; '
                 'n=5 loop-free all in thorough / sampled, with loops sampled), all digraphs with loops n<=3 (n=3 sampled in '
                 'quick), sampled digraphs n=4; every graph goes through components/is_connected/largest (weak and strong), '
